@@ -71,7 +71,7 @@ def systematic_fp(rng, full=False):
     """floating point value source x clock operand x use position x way the template enters the system"""
     GD = ("clock x; clock y; hybrid clock hx; double d; int i; const int N = 2; broadcast chan bc; const double D = 1.5; "
           "typedef double real; real r; typedef struct { double w; int n; } SD; SD sd; double da[2]; const double CDA[2] = { 0.5, 1.5 }; "
-          "double fd() { return 1.5; } const real CR = 2.5; meta double md;")
+          "double fd() { return 1.5; } const real CR = 2.5; meta double md; clock xa[2]; typedef struct { clock c; int n; } SC; SC sc;")
     # (name, text, extra template parameter or None, argument, usable in an initialiser)
     values = [("literal", "1.5", None, None, True), ("double-var", "d", None, None, False), ("double-expr", "(d * 2.0)", None, None, False),
               ("const-double", "D", None, None, True), ("typedef-double-var", "r", None, None, False), ("const-typedef-double", "CR", None, None, True),
@@ -80,7 +80,9 @@ def systematic_fp(rng, full=False):
               ("meta-double", "md", None, None, False), ("ref-double-parameter", "pd", "double &pd", "d", False),
               ("const-double-parameter", "cpd", "const double cpd", "1.5", False), ("negated-literal", "-1.5", None, None, True),
               ("inline-if-double", "(i > 0 ? 1.5 : 2.5)", None, None, False)]
-    clocks = [("global-clock", "x", None, None, ""), ("local-clock", "lx", None, None, "clock lx;"), ("clock-difference", "x - y", None, None, ""),
+    clocks = [("clock-array-element", "xa[1]", None, None, ""), ("clock-array-element-var-index", "xa[i]", None, None, ""),
+              ("struct-field-clock", "sc.c", None, None, ""), ("local-clock-array-element", "lxa[0]", None, None, "clock lxa[2];"),
+              ("global-clock", "x", None, None, ""), ("local-clock", "lx", None, None, "clock lx;"), ("clock-difference", "x - y", None, None, ""),
               ("local-difference", "lx - x", None, None, "clock lx;"), ("ref-clock-parameter", "px", "clock &px", "x", "")]
     out = []
     for vn, vt, vpar, varg, vinit in values:
@@ -153,7 +155,13 @@ def run(rep, tier, seed):
                           ("update-double-var", "d = 2.5", ""), ("update-double-expr", "i = 0, d = d * 2.0", ""),
                           ("update-local-clock", "lx = 2.5", "clock lx;"), ("update-in-function", "f()", "void f() { x = 1.5; }"),
                           ("update-in-function-chain", "g()", "void f() { d = 1.5; } void g() { f(); }"),
-                          ("update-mixed-hybrid-normal", "hx = 1.5, x = 2.5", "")]:
+                          ("update-mixed-hybrid-normal", "hx = 1.5, x = 2.5", ""),
+                          ("update-through-ref-clock-parameter", "setc(x)", "void setc(clock &c) { c = 1.5; }"),
+                          ("update-through-ref-double-parameter", "setd(d)", "void setd(double &v) { v = 2.5; }"),
+                          ("update-through-ref-parameter-nested", "outer(x)", "void setc(clock &c) { if (i > 0) { c = d; } } void outer(clock &c2) { setc(c2); }"),
+                          ("update-through-ref-parameter-local-clock", "setc(lx)", "clock lx; void setc(clock &c) { c = 0.5; }"),
+                          ("update-clock-array-element", "xa2[1] = 1.5", "clock xa2[2];"),
+                          ("update-in-function-local-only", "lf()", "clock lx2; void lf() { double t = 1.5; lx2 = t; }")]:
         items.append(("fp-assign", desc, model(GDECL, [templ("P", tdecl=td, update=upd)], sys1), {0}))
     # clock initialised with a floating point value
     items.append(("fp-init", "global-clock-init", model(GDECL + " clock z = 1.5;", [templ("P")], sys1), {0}))
